@@ -248,9 +248,23 @@ func (s *server) GetTable(ctx context.Context, req *btapb.GetTableRequest) (*bta
 
 func (s *server) DeleteTable(ctx context.Context, req *btapb.DeleteTableRequest) (*emptypb.Empty, error) {
 	s.mu.Lock()
-	defer s.mu.Unlock()
 	tbl, ok := s.tables[req.Name]
+	s.mu.Unlock()
 	if !ok {
+		return nil, status.Errorf(codes.NotFound, "table %q not found", req.Name)
+	}
+
+	// Wait for the requests that are working on the table and mark it as deleted before its name becomes
+	// available again: a request that looked the table up earlier must not clear or re-define the storage of
+	// a table that is created under the same name afterwards.
+	tbl.mu.Lock()
+	tbl.deleted = true
+	tbl.mu.Unlock()
+
+	s.mu.Lock()
+	defer s.mu.Unlock()
+	if s.tables[req.Name] != tbl {
+		// deleted by a concurrent request
 		return nil, status.Errorf(codes.NotFound, "table %q not found", req.Name)
 	}
 	// Make the deletion durable: a storage layer that persists table metadata must forget the table,
@@ -278,6 +292,9 @@ func (s *server) ModifyColumnFamilies(ctx context.Context, req *btapb.ModifyColu
 
 	tbl.mu.Lock()
 	defer tbl.mu.Unlock()
+	if tbl.deleted {
+		return nil, status.Errorf(codes.NotFound, "table %q not found", req.Name)
+	}
 	cfs := tbl.def.ColumnFamilies
 
 	// Validate the whole request against a scratch copy of the family set first,
@@ -380,6 +397,9 @@ func (s *server) DropRowRange(ctx context.Context, req *btapb.DropRowRangeReques
 
 	tbl.mu.Lock()
 	defer tbl.mu.Unlock()
+	if tbl.deleted {
+		return nil, status.Errorf(codes.NotFound, "table %q not found", req.Name)
+	}
 	if req.GetDeleteAllDataFromTable() {
 		tbl.rows.Clear()
 	} else {
@@ -1423,9 +1443,10 @@ func (s *server) gcloop() {
 }
 
 type table struct {
-	mu   sync.RWMutex
-	def  *btapb.Table
-	rows Rows // indexed by row key
+	mu      sync.RWMutex
+	def     *btapb.Table
+	rows    Rows // indexed by row key
+	deleted bool // set by DeleteTable; requests that change storage or schema must not act on a deleted table
 
 	lastReadNanos  int64 // atomic, time in nanos on the real system clock
 	lastWriteNanos int64 // atomic, time in nanos on the real system clock
